@@ -7,7 +7,7 @@ View == state
 Emit == PrintT("EMIT " \o ToJson([h |-> hist', chg |-> (state' # state)]))
 (* simulation: print only complete walks *)
 SimDepth == 28
-EmitEnd == (Len(hist') < SimDepth /\ mode' # "closed") \/ PrintT("EMIT " \o ToJson([h |-> hist', chg |-> TRUE]))
+EmitEnd == (Len(hist') # SimDepth /\ mode' # "closed") \/ PrintT("EMIT " \o ToJson([h |-> hist', chg |-> TRUE]))
 (* smoke target for vacuity control: a state the invariants talk about must be reachable *)
 Reach1 == ~(mode = "indep" /\ "pb" \in pend /\ abuf)
 =============================================================================
